@@ -87,6 +87,14 @@ CHECKS = {
               "End-to-end runs must print exactly N words of the model's non-Markov language in both modes and random_walk must "
               "reproduce itself in-process and across CLI processes. Exploration."),
         design='4/C16'),
+    'C17': dict(
+        technique="Hypothesis property-based testing: real prince_ling.main() unbounded / to a file / with every --size N, against a model-side language of (type, value, capitalisation) with exact-rational probabilities; metamorphic size-N == prefix(N); CLI byte comparison",
+        text=("Generated rulesets with a PRINCE base list (all terminal types incl. e-mail/website), both all_lower settings: the "
+              "unbounded list must be the model language with one word per derivation in non-increasing model probability, the "
+              "file written with --output must be byte-identical to stdout, and --size N must give exactly the first N words for "
+              "every N up to |U|+1 (in particular N inside a group of equally probable words). Exploration; every N of each "
+              "generated ruleset is enumerated."),
+        design='4/C17'),
 }
 
 NOT_YET = "check not built yet in this round (design exists in DESIGN.md section 4); not claimed until it runs"
